@@ -236,6 +236,7 @@ func TestGvcAudit(t *testing.T) {
 `
 
 type auditResult struct {
+	What     string
 	Cases    int
 	Values   int
 	Failures []string
@@ -247,7 +248,11 @@ var auditRe = regexp.MustCompile(`GVC-AUDIT cases=(\d+) values=(\d+) failures=(\
 func (e *Engine) auditConverters() auditResult {
 	src := strings.Replace(auditTest, "TestGvcAudit", "TestGvcReplay", 1)
 	out, _ := e.runGoTest(src)
-	r := auditResult{Output: out}
+	return parseAudit(out, "bounded audit of the assumed converter contract and reflect axioms")
+}
+
+func parseAudit(out, what string) auditResult {
+	r := auditResult{Output: out, What: what}
 	if m := auditRe.FindStringSubmatch(out); m != nil {
 		r.Cases, _ = strconv.Atoi(m[1])
 		r.Values, _ = strconv.Atoi(m[2])
@@ -263,5 +268,5 @@ func (e *Engine) auditConverters() auditResult {
 }
 
 func (r auditResult) summary() string {
-	return fmt.Sprintf("bounded audit of the assumed converter contract and reflect axioms: %d checks over %d catalogue values, %d failures", r.Cases, r.Values, len(r.Failures))
+	return fmt.Sprintf("%s: %d checks over %d catalogue values, %d failures", r.What, r.Cases, r.Values, len(r.Failures))
 }
